@@ -51,7 +51,7 @@ def traced(cfg):
     s, t, like, pt = runs.build(c)
     bad = []
     cnt = dict(rows=0, boundaries=0)
-    have_blobs = c["mode"] in ("blobs", "blobs2", "blobs3")
+    have_blobs = c["mode"] in ("blobs", "blobs2", "blobs3", "blobview")
     if isinstance(c.get("pool"), int) and c["pool"] > 1:
         import functools
         globals_cr = coherent_rows
@@ -105,11 +105,18 @@ def traced(cfg):
                     if len(bad) < 20:
                         bad.append((key, what))
         hk.wrap(StateManager, "commit_current_to_history", after=after_commit)
-        s._core._initialize_fresh()
-        s._core.n_total = c["n_total"]
         it = 0
+        via_run = bool(c.get("progress"))
+        if not via_run:
+            s._core._initialize_fresh()
+            s._core.n_total = c["n_total"]
         try:
-            while s._core._not_termination() and it < 400:
+            if via_run:
+                # the public run() with its progress display on (the default): same hooks, the loop is the library's own
+                attach.iteration_budget(hk, 400)
+                s.run(n_total=c["n_total"], progress=True)
+                it = int(s.state.get_history_length())
+            while not via_run and s._core._not_termination() and it < 400:
                 st = s.sample()
                 it += 1
                 cnt["boundaries"] += 1
@@ -160,14 +167,14 @@ def traced_reuse(cfg, variant):
     from tempest.state_manager import StateManager
     from tvf.checks.c08 import tmpdir
     c = runs.full(cfg)
-    have_blobs = c["mode"] in ("blobs", "blobs2", "blobs3")
+    have_blobs = c["mode"] in ("blobs", "blobs2", "blobs3", "blobview")
     tmp = tmpdir()
     bad = []
     cnt = dict(rows=0, boundaries=0, same_length=0, iters_after=0)
     try:
         np.random.seed(c["seed"])
         sA, t, like, pt = runs.build(dict(c, output_dir=tmp, output_label="a"))
-        sA.run(n_total=c["n_total"], progress=False, save_every=1)
+        sA.run(n_total=c["n_total"], progress=bool(c.get("progress")), save_every=1)
         files = {}
         for f in os.listdir(tmp):
             if f.startswith("a_") and f.endswith(".state") and "final" not in f:
@@ -182,7 +189,7 @@ def traced_reuse(cfg, variant):
         else:
             np.random.seed(c["seed"] + 1)
             s, _, _, _ = runs.build(c, like=like)          # the same likelihood object: one evaluation log for both runs
-            s.run(n_total=c["n_total"], progress=False)
+            s.run(n_total=c["n_total"], progress=bool(c.get("progress")))
             if variant == "results-first":
                 s.results()
                 s.posterior()
@@ -251,7 +258,7 @@ def traced_reuse(cfg, variant):
             if variant == "load":
                 s.load_state(pick)
                 whole("right after load_state")
-            s.run(n_total=2 * c["n_total"], progress=False, resume_state_path=pick)
+            s.run(n_total=2 * c["n_total"], progress=bool(c.get("progress")), resume_state_path=pick)
         whole("after the resumed run")
     except Exception as e:
         bad.append(("reuse-run-raises", f"[{variant}] {type(e).__name__}: {e}\n{fmt_exc()[-300:]}"))
@@ -271,7 +278,8 @@ def run():
         rows = rows[:24]
     ck.tables["pairwise_coverage"] = cover.coverage(rows, FACTORS, 2)
     ck.tables["threeway_coverage"] = cover.coverage(rows, FACTORS, 3)
-    tasks = [("tvf.checks.c07:traced", dict(cfg=to_cfg(r, ck.subseed("cfg", i))), None) for i, r in enumerate(rows)]
+    # every other configuration runs with the progress display on (the default of run(); the bar writes to the worker's stderr)
+    tasks = [("tvf.checks.c07:traced", dict(cfg=dict(to_cfg(r, ck.subseed("cfg", i)), progress=bool(i % 2))), None) for i, r in enumerate(rows)]
     # dedicated workload for the replacement of zero-likelihood prior draws: sparse support x blobs x several seeds
     for j in range(ck.pick(12, 60)):
         row = dict(target="support-sparse", kernel=["tpcn", "rwm"][j % 2], resample=["mult", "syst"][(j // 2) % 2], clustering=bool((j // 4) % 2),
@@ -304,6 +312,11 @@ def run():
         row = dict(target=["gauss2", "bimodal", "support"][j % 3], kernel=["tpcn", "rwm"][j % 2], resample=["syst", "mult"][j % 2], clustering=bool(j % 2),
                    mode="scalar", metric="ess", N=[32, 27][j % 2], cluster_every=1)
         tasks.append(("tvf.checks.c07:traced", dict(cfg=dict(to_cfg(row, ck.subseed("ipool", j)), pool=[2, 3][j % 2])), None))
+    # the blob is the likelihood's argument itself ("return logl, x"): a reference to whatever array the library handed over
+    for j in range(ck.pick(4, 12)):
+        row = dict(target=["gauss2", "bimodal", "support", "gauss4"][j % 4], kernel=["tpcn", "rwm"][j % 2], resample=["syst", "mult"][(j // 2) % 2], clustering=bool(j % 2),
+                   mode="blobview", metric="ess", N=[32, 27][j % 2], cluster_every=1)
+        tasks.append(("tvf.checks.c07:traced", dict(cfg=dict(to_cfg(row, ck.subseed("bview", j)), pool=[None, "tpe", 2, None][j % 4], progress=bool(j % 3 == 0), xalias=(j % 4 == 2 and j % 8 == 2))), None))
     # likelihood evaluated through a real concurrent.futures.ThreadPoolExecutor whose calls complete out of order
     for j in range(ck.pick(3, 8)):
         row = dict(target=["gauss2", "bimodal", "support", "vonmises"][j % 4], kernel=["tpcn", "rwm"][j % 2], resample=["syst", "mult"][(j // 2) % 2], clustering=bool(j % 2),
@@ -325,6 +338,10 @@ def run():
             ck.event("monitored runs whose prior transform is written for one point, parameter by parameter")
         if cfg.get("xalias"):
             ck.event("monitored runs whose prior transform returns its argument (identity on the unit cube)")
+        if cfg.get("mode") == "blobview":
+            ck.event("monitored runs whose blob is the likelihood's own argument (a reference)")
+        if cfg.get("progress"):
+            ck.event("monitored runs with the progress display on (run()'s default)")
         if cfg.get("pool") == "tpe":
             ck.event("monitored runs whose likelihood is evaluated through a concurrent.futures.ThreadPoolExecutor")
         if isinstance(cfg.get("pool"), int):
